@@ -603,7 +603,8 @@ class IEG:
             # stop side may fire before the component runs at all
             left = self._node(f, t["target"], self._select_left_tag(f, n.bb))
             return [(self._node(child, 0, None), 'await'), (left, 'cancel')]
-        if s.startswith("std::future::PollFn<") or s.startswith("core::future::PollFn<") or "poll_fn::PollFn<" in s:
+        if s.startswith("std::future::PollFn<") or s.startswith("core::future::PollFn<") or "poll_fn::PollFn<" in s or s.startswith("futures_util::future::PollFn<"):
+            # std's and futures-util's PollFn are the same thing: `poll` calls the closure with the context
             if len(closures) != 1 or coroutines:
                 raise Undecidable("poll_fn with unexpected components at %s" % n.loc())
             child = self._new_frame(closures[0], f, n.bb, 'pollfn', dict(f.subst), fe, t)
